@@ -47,6 +47,15 @@ def xfold(e: ast.AST, env: Dict[str, object]):
             def visit_Subscript(self, node):
                 self.generic_visit(node)
                 if isinstance(node.slice, ast.Slice):
+                    try:
+                        base = q.fold(node.value, env)
+                        lo = q.fold(node.slice.lower, env) if node.slice.lower is not None else None
+                        hi = q.fold(node.slice.upper, env) if node.slice.upper is not None else None
+                        st_ = q.fold(node.slice.step, env) if node.slice.step is not None else None
+                        if isinstance(base, (str, bytes, tuple)):
+                            return ast.copy_location(ast.Constant(value=base[lo:hi:st_]), node)
+                    except (q.NotFoldable, TypeError, ValueError):
+                        pass
                     return node
                 d = q.dotted(node.value) if isinstance(node.value, (ast.Name, ast.Attribute)) else None
                 try:
